@@ -73,11 +73,11 @@ func (lex *Lexer) addFreeFloatingToken(t *token.Token, id token.ID, ps, pe int) 
 
 func (lex *Lexer) isNotStringVar() bool {
 	p := lex.p
-	if lex.data[p-1] == '\\' && lex.data[p-2] != '\\' {
+	if p >= 2 && lex.data[p-1] == '\\' && lex.data[p-2] != '\\' {
 		return true
 	}
 
-	if len(lex.data) < p+1 {
+	if len(lex.data) <= p+1 {
 		return true
 	}
 
@@ -94,7 +94,7 @@ func (lex *Lexer) isNotStringVar() bool {
 
 func (lex *Lexer) isNotStringEnd(s byte) bool {
 	p := lex.p
-	if lex.data[p-1] == '\\' && lex.data[p-2] != '\\' {
+	if p >= 2 && lex.data[p-1] == '\\' && lex.data[p-2] != '\\' {
 		return true
 	}
 
